@@ -72,7 +72,28 @@ def data_msg(proto, tid):
     return [0, 9, 0, 3] + [0] * 16 + body
 
 
-def job_of(proto, hist, addr):
+def stamp(proto, buf, t):
+    """export time / sequence number of a message header: which definition is in force is decided by the order of arrival,
+    whatever the headers say (clocks step back, exporters restart, UDP reorders)"""
+    b = list(buf)
+    if proto == "ipfix":
+        b[4:8] = [(t >> 24) & 255, (t >> 16) & 255, (t >> 8) & 255, t & 255]
+        b[8:12] = b[4:8]
+    else:
+        b[4:8] = b[8:12] = b[12:16] = [(t >> 24) & 255, (t >> 16) & 255, (t >> 8) & 255, t & 255]
+    return b
+
+
+def job_of(proto, hist, addr, clock=None):
+    j = job_of0(proto, hist, addr)
+    if clock:
+        for k, m in enumerate(j["msgs"]):
+            if m["buf"]:
+                m["buf"] = stamp(proto, m["buf"], (3000000 - 1000 * k) if clock == "down" else (1000 + 1000 * k))
+    return j
+
+
+def job_of0(proto, hist, addr):
     msgs = []
     for op in hist:
         exp = addr[op["e"]]
@@ -233,8 +254,16 @@ def check(ctx):
         jobs, meta = [], []
         for hi, h in enumerate(hists):
             for addr in ((a4, a16) if (thorough or hi % 4 == 0) else (a4,)):
-                jobs.append(job_of(proto, h, addr))
+                jobs.append(job_of(proto, h, addr, clock=[None, "down", "up"][hi % 3]))
                 meta.append((h, addr))
+        # a 4-octet exporter and the 16-octet address that starts with the same four octets followed by zeros (and the
+        # IPv4-mapped form) are different exporters
+        for hi, h in enumerate(hists):
+            if hi % (7 if thorough else 29) == 0:
+                e4 = a4["ea"]
+                apad = {"ea": e4, "eb": e4 + [0] * 12, "ec": [0] * 10 + [255, 255] + e4}
+                jobs.append(job_of(proto, h, apad, clock=[None, "down", "up"][hi % 3]))
+                meta.append((h, apad))
         for h in hists_scope:
             jobs.append(job_of(proto, h, a4))
             meta.append((h, a4))
